@@ -1,5 +1,7 @@
 import XMT.Drv.Util
 import XMT.Codec
+import XMT.CodecTyped
+import XMT.CodecIO
 namespace XMT.Drv.C10
 open XMT XMT.Codec XMT.Drv
 
@@ -45,6 +47,75 @@ def showVals (vs : List Val) : String :=
 def showErr : Err → String
   | .eof => "eof" | .unexpectedEOF => "ueof" | .invalidType => "badtype" | .tooLarge => "toolarge"
 
+
+/-! ### extension round 3: Go-level values, io scripts -/
+
+def gKind (t : String) : Option GKind :=
+  match t with
+  | "b" => some .bool | "i8" => some .i8 | "u8" => some .u8 | "i16" => some .i16
+  | "u16" => some .u16 | "i32" => some .i32 | "u32" => some .u32 | "i64" => some .i64
+  | "u64" => some .u64 | "int" => some .int | "uint" => some .uint | "f32" => some .f32
+  | "f64" => some .f64 | "by" => some .bytes | "str" => some .str | "sl" => some .strs
+  | _ => none
+
+def parseSl (v : String) : Option (List Bytes) :=
+  if v = "" then some [] else (splitOn1 v ',').mapM ofHex
+
+def parseGVal (tok : String) : Option GVal :=
+  match splitOn1 tok ':' with
+  | [t, v] => do
+    let k ← gKind t
+    match k with
+    | .bool => if v = "1" then some (.bool true) else if v = "0" then some (.bool false) else none
+    | .i8 => do let n ← intOf v; some (.i8 n)
+    | .u8 => do let n ← natOf v; some (.u8 n)
+    | .i16 => do let n ← intOf v; some (.i16 n)
+    | .u16 => do let n ← natOf v; some (.u16 n)
+    | .i32 => do let n ← intOf v; some (.i32 n)
+    | .u32 => do let n ← natOf v; some (.u32 n)
+    | .i64 => do let n ← intOf v; some (.i64 n)
+    | .u64 => do let n ← natOf v; some (.u64 n)
+    | .int => do let n ← intOf v; some (.int n)
+    | .uint => do let n ← natOf v; some (.uint n)
+    | .f32 => do let n ← natOf v; some (.f32 n)
+    | .f64 => do let n ← natOf v; some (.f64 n)
+    | .bytes => do let b ← ofHex v; some (.bytes b)
+    | .str => do let b ← ofHex v; some (.str b)
+    | .strs => do let l ← parseSl v; some (.strs l)
+  | _ => none
+
+def showSl (l : List Bytes) : String := "sl:" ++ ",".intercalate (l.map hexOrDash)
+
+def showGVal : GVal → String
+  | .bool b => if b then "b:1" else "b:0"
+  | .i8 n => s!"i8:{n}" | .u8 n => s!"u8:{n}" | .i16 n => s!"i16:{n}" | .u16 n => s!"u16:{n}"
+  | .i32 n => s!"i32:{n}" | .u32 n => s!"u32:{n}" | .i64 n => s!"i64:{n}" | .u64 n => s!"u64:{n}"
+  | .int n => s!"int:{n}" | .uint n => s!"uint:{n}" | .f32 n => s!"f32:{n}" | .f64 n => s!"f64:{n}"
+  | .bytes b => s!"by:{hexOrDash b}" | .str b => s!"str:{hexOrDash b}"
+  | .strs l => showSl l
+
+def showGVals (vs : List GVal) : String :=
+  if vs.isEmpty then "." else " ".intercalate (vs.map showGVal)
+
+/-- `hex` / `-` with an optional trailing `!` (io.EOF returned together with it); `.` = no piece. -/
+def parsePiece (s : String) : Option Piece :=
+  if s.endsWith "!" then (ofHex (String.ofList s.toList.dropLast)).map (⟨·, true⟩) else (ofHex s).map (⟨·, false⟩)
+
+def parseIO (s : String) : Option IOStream :=
+  if s = "" ∨ s = "." then some [] else (splitOn1 s '|').mapM parsePiece
+
+def showIO (cs : IOStream) : String :=
+  if cs.isEmpty then "." else
+    "|".intercalate (cs.map fun p => hexOrDash p.data ++ (if p.eof then "!" else ""))
+
+def showOutG {S : Type} (rem : S → Nat) : Except (Err × List GVal) (List GVal × S) → String
+  | .ok (vs, r) => s!"ok rem={rem r} {showGVals vs}"
+  | .error (e, vs) => s!"err {showErr e} {showGVals vs}"
+
+def showInto {S : Type} (rem : S → Nat) (shw : String) : Except Err S → String
+  | .ok r => s!"dst={shw} nil rem={rem r}"
+  | .error e => s!"dst={shw} err {showErr e}"
+
 def handle (args : List String) : String :=
   match args with
   | "enc" :: toks =>
@@ -63,6 +134,62 @@ def handle (args : List String) : String :=
         | .ok (vs, r) => s!"ok rem={r.flatten.length} {showVals vs}"
         | .error (e, vs) => s!"err {showErr e} {showVals vs}"
       else "bad-op"
+    | _, _ => "bad-op"
+  | "encg" :: toks =>
+    match toks.mapM parseGVal with
+    | none => "bad-op"
+    | some vs => s!"{hexOrDash (encAllGChunk vs)} {showChunks (encAllGStream vs)}"
+  | ["decg", rd, kinds, src] =>
+    match (splitOn1 kinds ',').mapM gKind with
+    | none => "bad-op"
+    | some ks =>
+      if rd = "chunk" then
+        match ofHex src with
+        | some b => showOutG List.length (decAllG chunkPrim ks b)
+        | none => "bad-op"
+      else if rd = "io" then
+        match parseIO src with
+        | some cs => showOutG (fun r => (absIO r).length) (decAllG ioPrim ks cs)
+        | none => "bad-op"
+      else "bad-op"
+  | ["decp", rd, old, src] =>
+    match parseGVal old with
+    | none => "bad-op"
+    | some o =>
+      if rd = "chunk" then
+        match ofHex src with
+        | some b => let r := readInto chunkPrim o.kind o b; showInto List.length (showGVal r.1) r.2
+        | none => "bad-op"
+      else if rd = "io" then
+        match parseIO src with
+        | some cs =>
+          let r := readInto ioPrim o.kind o cs; showInto (fun r => (absIO r).length) (showGVal r.1) r.2
+        | none => "bad-op"
+      else "bad-op"
+  | ["sli", rd, old, src] =>
+    match parseGVal old with
+    | some (.strs o) =>
+      if rd = "chunk" then
+        match ofHex src with
+        | some b => let r := decStrsInto chunkPrim o b; showInto List.length (showSl r.1) r.2
+        | none => "bad-op"
+      else if rd = "io" then
+        match parseIO src with
+        | some cs =>
+          let r := decStrsInto ioPrim o cs; showInto (fun r => (absIO r).length) (showSl r.1) r.2
+        | none => "bad-op"
+      else "bad-op"
+    | _ => "bad-op"
+  | ["cls", l] =>
+    match natOf l with
+    | some n => hexOrDash (lenPrefix n)
+    | none => "bad-op"
+  | ["rf", k, src] =>
+    match natOf k, parseIO src with
+    | some k, some cs =>
+      let r := readFullIO cs k
+      let e := if r.1.length = k then "nil" else showErr (shortErr r.1)
+      s!"got={hexOrDash r.1} {e} rest={showIO r.2}"
     | _, _ => "bad-op"
   | _ => "bad-op"
 
